@@ -63,6 +63,15 @@ def gen_cases(tier):
     for s in sels:
         for kc in ("upper", "lower"):
             cases.append({"sel": s, "voff": 0, "kcase": kc, "ctx": "alone"})
+    deep = tier == "thorough"
+    if deep:
+        for s in sels:
+            cases.append({"sel": s, "voff": 6, "kcase": "mixed", "ctx": "between"})
+            if len(s) == 3:
+                for v in range(2, len(VALS)):
+                    cases.append({"sel": s, "voff": v, "kcase": "lower", "ctx": "alone"})
+                for ctx in ("then-alter", "noschema", "twoseq"):
+                    cases.append({"sel": s, "voff": 7, "kcase": "upper", "ctx": ctx})
     for s in sels:
         if 1 <= len(s) <= 2:
             for v in range(1, len(VALS)):
